@@ -2,6 +2,7 @@
 #define VK_MAIN
 #include "../kit/viewprog.hpp"
 #include <boost/multi/array_ref.hpp>
+#include <limits>
 using namespace vk;
 
 #ifndef C07_D
@@ -95,9 +96,27 @@ static NV related(Rng& g, NV const& a, int maxext) {  // b close to a: same / on
 
 static int MAXEXT = 3;
 
+// floating-point elements whose == is not a bit comparison: +0.0 == -0.0 (different bytes), NaN != NaN (same bytes). Equality of arrays, references
+// and views is element-wise equality, whatever the ownership kind.
+template<int DD = D> void float_probe(Case& c) {
+	if constexpr(DD >= 1) {
+		Rng& g = c.rng; std::vector<L> e; for(int d = 0; d < DD; ++d) e.push_back(g.in(1, 3)); auto ext = make_extensions<DD>(e); L n = 1; for(auto q : e) n *= q;
+		multi::array<double, DD> P(ext, 1.5), N(ext, 1.5); L const z = g.below(n); P.data_elements()[z] = +0.0; N.data_elements()[z] = -0.0; describe(" + float probe " + join(e, "x")); op("float-probe"); count("float_probes");
+		std::vector<double> pb(P.data_elements(), P.data_elements() + n), nb(N.data_elements(), N.data_elements() + n); multi::array_ref<double, DD> PR(ext, pb.data()), NR(ext, nb.data());
+		auto chk = [&](bool eq, bool ne, char const* what, char const* which) { if(!eq || ne) violation(std::string("C07:D") + std::to_string(DD) + ":float:" + which + ":" + what, std::string(what) + ": operands that differ only in the sign of a zero must compare equal (== " + (eq ? "true" : "false") + ", != " + (ne ? "true" : "false") + ")"); };
+		chk(P == N, P != N, "array~array", "signed-zero"); chk(PR == NR, PR != NR, "array_ref~array_ref", "signed-zero"); chk(P == NR, P != NR, "array~array_ref", "signed-zero"); chk(P() == N(), P() != N(), "view~view", "signed-zero"); chk(P == N(), P != N(), "array~view", "signed-zero");
+		chk(P.elements() == N.elements(), P.elements() != N.elements(), "elements~elements", "signed-zero"); chk(std::as_const(PR) == std::as_const(N), std::as_const(PR) != std::as_const(N), "array_ref-const~array-const", "signed-zero");
+		if constexpr(has_lt<multi::array<double, DD>, multi::array<double, DD>>::value) { if(bool(P < N) || bool(N < P)) violation(std::string("C07:D") + std::to_string(DD) + ":float:signed-zero:ordering", "arrays that compare equal are ordered"); }
+		multi::array<double, DD> Q = P; Q.data_elements()[z] = std::numeric_limits<double>::quiet_NaN(); std::vector<double> qb(Q.data_elements(), Q.data_elements() + n); multi::array_ref<double, DD> QR(ext, qb.data()); multi::array<double, DD> Q2 = Q;
+		auto chn = [&](bool eq, bool ne, char const* what) { if(eq || !ne) violation(std::string("C07:D") + std::to_string(DD) + ":float:nan:" + what, std::string(what) + ": operands holding a NaN at the same index are not element-wise equal (== " + (eq ? "true" : "false") + ", != " + (ne ? "true" : "false") + ")"); };
+		chn(Q == Q2, Q != Q2, "array~array"); chn(QR == Q2, QR != Q2, "array_ref~array"); chn(Q() == Q2(), Q() != Q2(), "view~view"); chn(Q == Q2(), Q != Q2(), "array~view");
+	} else { (void)c; }
+}
+
 int main(int argc, char** argv) {
 	return main_loop(argc, argv, [&](Case& c) {
 		static bool init = false; if(!init) { init = true; auto& a = st().args; for(std::size_t i = 0; i + 1 < a.size(); ++i) if(a[i] == "--maxext") MAXEXT = std::atoi(a[i + 1].c_str()); }
+		if(c.k % 10 == 7) { float_probe(c); nontrivial(); return; }
 		Rng& g = c.rng; bool const triple = g.chance(1, 5);
 		NV x = gen(g, MAXEXT, true), y = related(g, x, MAXEXT);
 		if(!triple) {
